@@ -449,8 +449,10 @@ impl Report {
 
     /// Write evidence + replay files, print verdict lines, return the exit code.
     pub fn finish(mut self, ctx: &Ctx) -> i32 {
-        let ev_dir = format!("{}/evidence", ctx.verif_dir);
-        let rp_dir = format!("{}/evidence/replays/{}", ctx.verif_dir, self.prop);
+        // scratch runs against mutants redirect their evidence so that /verif/evidence only ever
+        // holds results for /repo itself
+        let ev_dir = std::env::var("VERIF_EVIDENCE_DIR").unwrap_or_else(|_| format!("{}/evidence", ctx.verif_dir));
+        let rp_dir = format!("{}/replays/{}", ev_dir, self.prop);
         let _ = std::fs::create_dir_all(&ev_dir);
         let _ = std::fs::remove_dir_all(&rp_dir);
         // deterministic order
